@@ -27,6 +27,7 @@ ASSUMPTIONS = [
     "update_statepoint without overwrite treats Python-equal values (1 vs 1.0) as non-conflicting, as the "
     "statement's 'differing' does; nothing may change in that case.",
 ]
+MANIFEST = {"technique": 'runtime monitoring: byte snapshots + FS-call monitor (no mutation on no-op / refused edits) + handle observers over a product of routes x destinations x provenances', "engine": 'fs-call monitor (audit hook)'}
 TIME_CAP = {"quick": 70, "thorough": 1500}
 
 ROUTES = ["spset", "spattr", "spdel", "spnested", "spassign", "update", "update_ow", "move", "clone"]
